@@ -128,5 +128,30 @@ func replayDispatch(rf *ReplayFile) *Violation {
 		}
 		return RunHCase(&c, NewStats(rf.Property))
 	}
+	if f, ok := replayers[rf.Engine]; ok {
+		return f(rf)
+	}
 	return &Violation{Oracle: "replay", Msg: "unknown engine " + rf.Engine}
+}
+
+// replayers maps engine names to plain (rapid-free) re-execution of a saved case.
+var replayers = map[string]func(*ReplayFile) *Violation{}
+
+func registerReplay[C any](engine string, run func(*C, *Stats)) {
+	replayers[engine] = func(rf *ReplayFile) *Violation {
+		var c C
+		if err := json.Unmarshal(rf.Case, &c); err != nil {
+			return &Violation{Oracle: "replay", Msg: err.Error()}
+		}
+		return protect(func() { run(&c, NewStats(rf.Property)) })
+	}
+}
+
+func init() {
+	registerReplay("segdamage", runSegCase)
+	registerReplay("codec", func(c *CodecCase, st *Stats) {
+		dir := MkScratch("vf-codec-")
+		defer os.RemoveAll(dir)
+		runCodecCase(c, st, dir)
+	})
 }
